@@ -178,6 +178,29 @@ print("CONFIRMED" if bad else "NOT-CONFIRMED", bad)
 """
 
 
+def _facade_forwarding(chk):
+    """Manifold.compute (the public entry point): every configured value - the energy tolerance and the safe distance of the
+    retention filter included - reaches the service unchanged (the values of the defaults are not constrained)"""
+    import hiten.system.manifold as sm
+
+    def th():
+        seen = []
+        dyn = _Obj(compute_manifold=lambda **kw: seen.append(kw) or "RESULT")
+        man = real_self(sm.Manifold, dynamics=dyn)
+        given = dict(step=0.125, integration_fraction=0.625, NN=2, displacement=3e-5, dt=7e-3, method="fixed", order=6,
+                     energy_tol=2e-9, safe_distance=3.5, show_progress=False)
+        r = sm.Manifold.compute(man, **given)
+        if r != "RESULT" or len(seen) != 1:
+            raise Refuted("Manifold.compute does not return the service's result of exactly one computation", str((r, len(seen))))
+        bad = {k: (seen[0].get(k, "<absent>"), v) for k, v in given.items() if seen[0].get(k, "<absent>") != v}
+        if bad:
+            raise Refuted(f"Manifold.compute does not hand the caller's {sorted(bad)} to the computation: (received, configured) = "
+                          f"{bad}", "configured values do not reach compute_manifold", inputs={k: repr(v) for k, v in given.items()})
+    chk.obl("Manifold.compute: step, fraction, NN, displacement, dt, method, order, energy_tol, safe_distance, show_progress of "
+            "the caller reach compute_manifold unchanged", "K2 wiring",
+            ["hiten.system.manifold:Manifold.compute"], "B4 exact evaluation", th)
+
+
 def run(chk):
     loader.install()
     chk.under_contract(MS + ":_ManifoldDynamicsService.__init__", MS + ":_ManifoldDynamicsService.compute_stm",
@@ -191,6 +214,8 @@ def run(chk):
     import hiten.algorithms.types.services.manifold as ms
     import hiten.algorithms.linalg.backend as lb
     S = ms._ManifoldDynamicsService
+    chk.under_contract("hiten.system.manifold:Manifold.compute")
+    _facade_forwarding(chk)
 
     # ---- 1. sign wiring -----------------------------------------------------------------------
     def th_init():
